@@ -748,5 +748,16 @@ class ThreadingShim:
         self._n += 1
         return SimEvent(self._k, f"tevent{self._n - 1}")
 
+    def Lock(self):
+        self._n += 1
+        return SimLock(self._k, f"tlock{self._n - 1}")
+
+    def RLock(self):
+        self._n += 1
+        return SimRLock(self._k, f"trlock{self._n - 1}")
+
     def __getattr__(self, name):
+        if name in ("Condition", "Semaphore", "BoundedSemaphore", "Barrier", "Timer"):
+            # a real blocking primitive would block the baton holder and wedge the simulation
+            raise SimUnsupported(f"threading.{name} is not modelled by the simulator")
         return getattr(self._t, name)
